@@ -100,6 +100,45 @@ def check_spec_objects(acc: Acc, cfg, spec, N: int, payload: dict) -> None:
                 return
 
 
+def check_spec_objects_children_first(acc: Acc, cfg, spec, N: int, payload: dict) -> None:
+    """Another order of asking: size by size, every class of the specification is asked for its
+    objects before the classes whose rules use it (children first), also for a parameter value
+    (or size) at which it has no object; every class -- not only the root -- is compared with
+    the plain enumeration of that class."""
+    classes = list(spec.rules_dict)
+    for n in range(N + 1):
+        for c in reversed(classes):
+            rule = spec.rules_dict[c]
+            names = c.extra_parameters
+            try:
+                with deadline(60):
+                    absent = list(rule.generate_objects_of_size(n, **{k: n + 1 for k in names}))
+                    objs = rule.get_objects(n)
+            except NotImplementedError:
+                acc.count("specs_without_object_maps")
+                return
+            except Exception as e:  # noqa: BLE001
+                acc.violation("exception-while-generating", call_site(e), cfg.sid(), f"children first: objects of {c.sid()} at size {n}: {type(e).__name__}: {str(e)[:200]}", payload)
+                return
+            acc.count("evaluations")
+            truth: Dict[Tuple[int, ...], List[Any]] = {}
+            try:
+                for o in brute_objects(c, n):
+                    truth.setdefault(params_of(c, o), []).append(o)
+            except Exception:  # noqa: BLE001
+                continue  # a class outside the plain enumerator (none in the shipped domains)
+            if names and absent:
+                acc.violation("objects!=class", "Rule._ensure_level_objects", cfg.sid(), f"children first: {c.sid()} size {n}: objects for parameter values no object has: {sorted(map(str, absent))[:6]}", payload)
+                return
+            got = {k: list(v) for k, v in objs.items() if v}
+            for p in set(got) | set(truth):
+                g, t = got.get(p, []), truth.get(p, [])
+                if len(set(g)) != len(g) or set(g) != set(t):
+                    acc.violation("objects!=class", "Rule._ensure_level_objects", cfg.sid(),
+                                  f"asked children first: class {c.sid()} size {n} parameters {p}: generated {sorted(map(str, g))[:8]}, the class has {sorted(map(str, t))[:8]}", payload)
+                    return
+
+
 def _worker_specs(arg) -> Acc:
     cfgj, tier = arg
     cfg = Cfg.from_json(cfgj)
@@ -118,6 +157,10 @@ def _worker_specs(arg) -> Acc:
         acc.nt((cfg.sid(), sig))
         payload = {"kind": "spec", "cfg": cfg.to_json(), "slice_default": sd, "horizon": 60 if tier == "quick" else 150}
         check_spec_objects(acc, cfg, ex.spec, N, payload)
+        # the same specification, fresh (no cache filled), asked in the other order
+        ex2 = execute(cfg, (), slice_default=sd, horizon=60 if tier == "quick" else 150)
+        if ex2.outcome == "spec" and spec_signature(ex2.spec) == sig:
+            check_spec_objects_children_first(acc, cfg, ex2.spec, N, dict(payload, children_first=True))
         acc.outcome((cfg.sid(), sig))
     if hash(cfg.sid()) % 211 == 2:
         acc.sample({"specification_of": cfg.sid(), "sizes": N})
@@ -441,7 +484,10 @@ def replay(acc: Acc, payload: dict) -> None:
         cfg = Cfg.from_json(payload["cfg"])
         ex = execute(cfg, (), slice_default=payload["slice_default"], horizon=payload["horizon"])
         if ex.outcome == "spec":
-            check_spec_objects(acc, cfg, ex.spec, N_QUICK, payload)
+            if payload.get("children_first"):
+                check_spec_objects_children_first(acc, cfg, ex.spec, N_QUICK, payload)
+            else:
+                check_spec_objects(acc, cfg, ex.spec, N_QUICK, payload)
         return
     from comb_spec_searcher.strategies.strategy import AbstractStrategy
 
